@@ -54,7 +54,13 @@ RULE = ("machine scenario = (main-loop slots, handler slots, initial IMR/ISR/F, 
         "never returns 1/8), main loop = filler (NOP/INC/KIL/HALT) + MV|OR (IMR),80|sources written on every pass "
         "(+ optional AND (IMR),7F / OR (IMR),80 pair), handler body as in the sampled part, timers 3..12 (STI 0 / k x "
         "MTI / 5,7,11), key inject / key down-up / ON events over all 60 boundaries, stack window 320 bytes for "
-        "non-returning handlers; half of them also run batched on Rust. Non-trivial = at least one delivery, "
+        "non-returning handlers; half of them also run batched on Rust; power-off-period part (round 5): timers 3..40, "
+        "main = filler + OFF + filler, host keeps stepping the powered-off machine for a generated number of boundaries "
+        "(0 / fewer than / exactly / more than the time the timer still had to run / several periods) before ON wakes "
+        "it, run continues for two more periods; stack-set-up part (round 5): run starts with S not yet loaded (s0 in "
+        "0..4, control: valid), program loads S itself (MV S,imm20) after 1..7 instructions, requests (timers 1..7, key/"
+        "ON events, masks enabled from the start / by the program before / after the stack set-up) reach the gate "
+        "before, at and after that point. Non-trivial = at least one delivery, "
         "or a pending-but-masked status for >= 2 consecutive boundaries, or a HALT/OFF wake-up; distinct = hash of "
         "(model, scenario).")
 
@@ -119,6 +125,17 @@ ASSUMPTIONS = [
     "target (period > 0) at the start of a step with no handler active before or after it, the CPU running before and "
     "after, exactly one instruction executed and no delivery, the target moves in that step (both step loops tick "
     "the timers once per executed instruction unless a handler is active); reported once per timer and run",
+    "'a powered-off CPU additionally stops both timers' is also judged on the timers' own progress: in a step that the "
+    "model itself reports as powered off at both ends (power state 2, nothing executed) the distance between a running "
+    "timer's own expiry target (next_mti/next_sti, period > 0) and the model's own cycle counter must not shrink; "
+    "reported once per timer and run. Evaluated only where the model has a powered-off state of its own: the Python "
+    "machine has none (OFF = HALT, open known finding C12-py-off-keeps-timers-running) and reports power state 1",
+    "both step loops document that a delivery is deferred while the system stack pointer is not initialised (S < 5, 'IRQ "
+    "deferred: stack pointer not initialized'; Python swallows the exception, CoreRuntime::step returns it as an error "
+    "and stays steppable -- that error text with S < 5 is accepted, any other error is a machine violation): a boundary "
+    "with S < 5 carries no delivery obligation; the 3-boundary obligation of a still pending, enabled, event-raised "
+    "request starts at the first boundary with S >= 5; a delivery that happens while S is outside the observed stack "
+    "window is reported by the existing state check",
     "Rust serves one source per delivery and its RETI clears exactly that status bit (lib.rs/eval.rs): an event-raised "
     "request that was only a co-candidate of that delivery and is still pending after the RETI keeps its 3-boundary "
     "obligation; Python has no per-source bookkeeping (one delivery stands for all candidates): nothing re-registered",
@@ -419,6 +436,133 @@ def hexit_scenario(st: Stream) -> Tuple[Dict[str, Any], str]:
     return sc, "hexit-" + kind
 
 
+def poweroff_scenario(st: Stream) -> Tuple[Dict[str, Any], str]:
+    """Round 5 -- the LENGTH of a powered-off period as a generated dimension, relative to the time a running timer
+    still has to go when the program executes OFF: the host keeps stepping the powered-off machine for a generated number
+    of boundaries (none, a few, exactly the remaining timer period, longer, several periods) before the ON key wakes it,
+    and the run continues long enough afterwards for the timer to expire and (masks permitting) be delivered.  Timer
+    periods are longer than in the other families so that 'remaining time at OFF' has a range."""
+    mti = st.choice((3, 5, 8, 12, 20, 30, 40))
+    sti = st.choice((0, 0, mti, 2 * mti, 7, 25, 50))
+    srcs = st.choice((0x00, 0x01, 0x03, 0x08, 0x09, 0x0B, 0x0F, 0x0F))
+    imr0 = (0x80 if st.chance(3, 4) else 0x00) | srcs
+
+    def filler() -> List[Any]:
+        r = st.below(100)
+        return ["NOP"] if r < 65 else (["INCA"] if r < 85 else (["INCM", R.SCRATCH] if r < 93 else ["KIL"]))
+
+    pre = st.below(min(mti, 10))
+    main: List[List[Any]] = [filler() for _ in range(pre)]
+    if st.chance(1, 3):
+        main.insert(st.below(len(main) + 1), ["IMR", 0x80 | srcs] if st.chance(1, 2) else ["ORIMR", 0x80 | srcs])
+    off_at = len(main)
+    main.append(["OFF"])
+    main += [filler() for _ in range(2 + st.below(5))]
+    handler: List[List[Any]] = []
+    for _ in range(st.below(3)):
+        r = st.below(100)
+        handler.append(["NOP"] if r < 35 else (["ACK", 0xFF ^ (1 << st.below(4))] if r < 65 else
+                                               (["ISR", 0] if r < 80 else ["INCM", R.SCRATCH])))
+    remaining = max(mti - (off_at + 1), 1)
+    kind = st.choice(("none", "short", "exact", "exact", "longer", "longer", "periods", "periods"))
+    if kind == "none":
+        dur = 0
+    elif kind == "short":
+        dur = 1 + st.below(max(remaining - 1, 1))
+    elif kind == "exact":
+        dur = remaining + st.below(3) - 1
+    elif kind == "longer":
+        dur = remaining + 1 + st.below(mti + 1)
+    else:
+        dur = remaining + mti * (1 + st.below(3)) + st.below(mti)
+    dur = min(dur, 110)
+    on_at = off_at + 1 + dur
+    events: List[List[Any]] = [[on_at, "on_down", None]]
+    steps = min(on_at + 2 * mti + 12, 170)
+    if st.chance(1, 2):
+        up = on_at + 1 + st.below(6)
+        events.append([up, "on_up", None])
+        if st.chance(1, 2) and up + 4 < steps:
+            events.append([up + 2 + st.below(max(steps - up - 3, 1)), "on_down", None])
+    if st.chance(1, 4):
+        events.append([st.below(steps), "key_inject", st.choice(KEYS)])
+    events = sorted((e for e in events if e[0] < steps), key=lambda e: e[0])
+    sc: Dict[str, Any] = {"prog": {"main": main, "handler": handler}, "imr0": imr0, "isr0": 0, "f0": st.byte(),
+                          "ba0": st.word(), "i0": 1 + st.below(20), "mti": mti, "sti": sti, "steps": steps,
+                          "events": events}
+    if st.chance(1, 2):
+        sc["bp0"] = st.choice(BASES)
+    if st.chance(1, 2):
+        sc["imfill"] = st.below(256)
+    return sc, "poweroff-" + kind
+
+
+def stackinit_scenario(st: Stream) -> Tuple[Dict[str, Any], str]:
+    """Round 5 -- the state of the system stack pointer when a request reaches the delivery gate as a generated
+    dimension: the run starts as firmware does after power-on, with S not yet loaded (s0 in 0..4; both step loops
+    document that they refuse/defer a delivery while S < 5), the program loads S itself (MV S,imm20) after a generated
+    number of instructions, and requests (timer expiries with short periods, key / ON events, masks enabled from the
+    start or by the program before or after the stack set-up) arrive before, at and after that point.  A rejected
+    delivery must leave no trace: once S is usable the still pending request is taken promptly, frame / RETI as usual."""
+    kind = st.choice(("timer-before", "timer-before", "event-before", "event-before", "unmask-before", "after", "valid"))
+    srcs = st.choice((0x01, 0x01, 0x03, 0x04, 0x05, 0x08, 0x09, 0x0C, 0x0F, 0x0F))
+    if kind == "timer-before":
+        srcs |= st.choice((0x01, 0x02, 0x03))
+
+    def filler() -> List[Any]:
+        r = st.below(100)
+        return ["NOP"] if r < 65 else (["INCA"] if r < 85 else (["INCM", R.SCRATCH] if r < 93 else ["KIL"]))
+
+    pre = 1 + st.below(7)
+    main: List[List[Any]] = [filler() for _ in range(pre)]
+    imr0 = 0x80 | srcs
+    if kind == "unmask-before":
+        # the firmware enables the sources itself before it has loaded S
+        imr0 = st.choice((0x00, srcs, 0x80))
+        main.insert(st.below(len(main) + 1), ["IMR", 0x80 | srcs] if st.chance(1, 2) else ["ORIMR", 0x80 | srcs])
+    elif kind == "after":
+        imr0 = st.choice((0x00, srcs))
+    sets_at = len(main)
+    main.append(["SETS", R.STACK_TOP])
+    if kind == "after":
+        main.append(["IMR", 0x80 | srcs] if st.chance(1, 2) else ["ORIMR", 0x80 | srcs])
+    for _ in range(2 + st.below(5)):
+        main.append(filler() if st.chance(7, 8) else ["HALT"])
+    handler: List[List[Any]] = []
+    for _ in range(st.below(4)):
+        r = st.below(100)
+        handler.append(["NOP"] if r < 30 else (["ACK", 0xFF ^ (1 << st.below(4))] if r < 55 else
+                                               (["ISR", 0] if r < 75 else (["INCM", R.SCRATCH] if r < 90 else ["ORIMR", 0x80]))))
+    mti = sti = 0
+    if srcs & 0x03:
+        mti = st.choice((1, 2, 3, 4, 5, 7)) if kind != "after" else st.choice((2, 5, 9, 12))
+        sti = st.choice((0, 0, mti, 2 * mti, 3, 7)) if srcs & 0x02 else 0
+    steps = 60
+    events: List[List[Any]] = []
+    if srcs & 0x0C:
+        n_ev = 1 + st.below(3)
+        on_down = False
+        for _ in range(n_ev):
+            k = st.below(sets_at + 2) if (kind == "event-before" or st.chance(1, 2)) else st.below(steps)
+            if srcs & 0x08 and (not srcs & 0x04 or st.chance(1, 2)):
+                events.append([k, "on_down", None])
+                on_down = True
+            else:
+                events.append([k, "key_inject", st.choice(KEYS)])
+        if on_down and st.chance(1, 2):
+            events.append([max(e[0] for e in events) + 3 + st.below(20), "on_up", None])
+    events = sorted((e for e in events if e[0] < steps), key=lambda e: e[0])
+    sc: Dict[str, Any] = {"prog": {"main": main, "handler": handler}, "imr0": imr0, "isr0": 0, "f0": st.byte(),
+                          "ba0": st.word(), "i0": 1 + st.below(20), "mti": mti, "sti": sti, "steps": steps,
+                          "events": events,
+                          "s0": R.STACK_TOP if kind == "valid" else st.choice((0, 0, 0, 1, 2, 3, 4))}
+    if st.chance(1, 2):
+        sc["bp0"] = st.choice(BASES)
+    if st.chance(1, 2):
+        sc["imfill"] = st.below(256)
+    return sc, "stackinit-" + kind
+
+
 def configure(sc: Dict[str, Any], st: Stream, always_batch: bool = False) -> Dict[str, Any]:
     """Host-side configuration of a scenario, drawn from a stream of its own (scenario draws are unchanged):
     "fast" (Python model only): PCE500Emulator.fast_mode, the documented 'minimal execution path' of step() that
@@ -486,6 +630,12 @@ def account(rep: Report, model: str, sc: Dict[str, Any], run: Dict[str, Any], ex
         labels.append(f"{model}:masked-pending>=2")
     if mon.dead:
         labels.append(f"{model}:monitor-stopped-early")
+    if mon.deferred_boundaries:
+        labels.append(f"{model}:delivery-deferred-until-stack-pointer-loaded")
+    if mon.off_steps_armed:
+        labels.append(f"{model}:powered-off-with-running-timer")
+    if mon.off_wakes_armed:
+        labels.append(f"{model}:wake-after-powered-off-period-with-running-timer")
     smp = None
     if sample:
         smp = {"model": model, "scenario": summarize(sc), "deliveries": mon.deliveries, "wakes": mon.wakes,
@@ -516,6 +666,17 @@ def _shard(task: Tuple[str, int, int, int, int, str]) -> Report:
             sc, skel = hexit_scenario(Stream(seed, 0xC124, shard, j))
             scs.append((sc, configure(sc, Stream(seed, 0xC125, shard, j), always_batch=(j % 2 == 0)),
                         ["gen:handler-exit", f"skel:{skel}"]))
+    elif kind == "stackinit":
+        for j in range(param):
+            sc, skel = stackinit_scenario(Stream(seed, 0xC128, shard, j))
+            cfg = configure(sc, Stream(seed, 0xC129, shard, j))
+            cfg.pop("batch", None)      # a deferral error ends a step(n) call early: single-stepped Rust runs only
+            scs.append((sc, cfg, ["gen:stack-set-up", f"skel:{skel}"]))
+    elif kind == "poweroff":
+        for j in range(param):
+            sc, skel = poweroff_scenario(Stream(seed, 0xC126, shard, j))
+            scs.append((sc, configure(sc, Stream(seed, 0xC127, shard, j), always_batch=(j % 2 == 0)),
+                        ["gen:power-off-period", f"skel:{skel}"]))
     else:
         count = param
         for j in range(count):
@@ -560,6 +721,10 @@ def run(ctx: Ctx) -> Report:
     tasks += [("contend", i, nsh, ctx.seed, per_c, ctx.tier) for i in range(nsh)]
     per_x = ctx.pick(20, 60)
     tasks += [("hexit", i, nsh, ctx.seed, per_x, ctx.tier) for i in range(nsh)]
+    per_o = ctx.pick(8, 30)
+    tasks += [("poweroff", i, nsh, ctx.seed, per_o, ctx.tier) for i in range(nsh)]
+    per_s = ctx.pick(10, 40)
+    tasks += [("stackinit", i, nsh, ctx.seed, per_s, ctx.tier) for i in range(nsh)]
     reports = ctx.pmap(_shard, tasks)
     rep = ctx.merge_reports(reports)
     rep.rule = RULE
@@ -573,6 +738,8 @@ def run(ctx: Ctx) -> Report:
     rep.extra["random_scenarios_per_model"] = per * nsh
     rep.extra["contention_scenarios_per_model"] = per_c * nsh
     rep.extra["handler_exit_scenarios_per_model"] = per_x * nsh
+    rep.extra["power_off_period_scenarios_per_model"] = per_o * nsh
+    rep.extra["stack_set_up_scenarios_per_model"] = per_s * nsh
     rep.extra["configuration"] = {"python fast_mode": "1/3 of all scenarios", "rust batched step(n)": "an additional run "
                                   "for 1/4 of the enumerated/random scenarios and for every contention scenario",
                                   "batch sizes": sorted(set(BATCHES))}
@@ -669,7 +836,7 @@ def shrink(ctx: Ctx, v: Violation) -> Violation:
             del c["sc"]["prog"]["hexit"]
             if attempt(c):
                 changed = True
-        for field in ("px0", "py0", "bp0", "imfill", "kbirq", "fast", "batch", "stkwin"):
+        for field in ("px0", "py0", "bp0", "imfill", "kbirq", "fast", "batch", "stkwin", "s0"):
             if field in best["sc"]:
                 c = clone()
                 del c["sc"][field]
